@@ -192,6 +192,7 @@ type Worker struct {
 	x509        []*x509Call
 	sigs        []*sigRecord
 	keys        []*testKey
+	scaled      map[*Term]*scaledInfo
 	opaqueN     int
 
 	// stats
@@ -764,6 +765,7 @@ func (w *Worker) runPath(fn *ssa.Function, prefix []Decision) {
 	w.x509 = w.x509[:0]
 	w.sigs = w.sigs[:0]
 	w.keys = w.keys[:0]
+	w.scaled = nil
 	w.freshN = 0
 	w.opaqueN = 0
 	w.pathViol = 0
